@@ -7,6 +7,13 @@ Implementation functions driven (real code from $VERIF_REPO/src):
   Segmentation(tile_pixel_array=True, tile_size=...) for BINARY / FRACTIONAL / LABELMAP,
     TILED_FULL / TILED_SPARSE, omit_empty_frames on/off, label-map and 4-D stack inputs,
   Segmentation.get_total_pixel_matrix (segment subsets, all three argument conventions)
+  Segmentation(tile_pixel_array=True) with an OWN geometry relative to the source image
+    (pixel_measures / plane_orientation / single plane_positions origin given by the caller, equal
+    to or different from the source's; mask shape equal to or different from the source's total
+    pixel matrix; tile_size None / equal to the source tile size / different), observing the
+    declared Rows/Columns/TotalPixelMatrixRows/Columns besides the regions
+  seg.create_segmentation_pyramid (one source + one mask per level, several sources, one
+    source + downsample_factors)
 Model: coq/theories/C04_Model.v; theorems: C04_Props.v.
 Kind 'np1d' compares the MODEL with pure numpy slicing (no highdicom) on the
 exhaustive per-axis enumeration of start/end arguments.
@@ -36,8 +43,14 @@ MODELLED = ('image.py _standardize_row_column_indices, _iterate_indices_for_tile
             'seg/sop.py tile_pixel_array constructor path (positions, _get_nonempty_tile_indices, per-segment '
             'omission, TILED_FULL+omit refusal, integer branch of _get_segment_pixel_array), '
             'Segmentation.get_total_pixel_matrix with segment subsets (combine_segments=False, raw values) and '
-            'LABELMAP combine without relabel; spatial.get_tile_array / compute_tile_positions_per_frame via C12_Model')
-STRATA = ['std', 'std_bad', 'img', 'img_missing', 'img_dup', 'seg', 'seg_full_omit', 'np1d']
+            'LABELMAP combine without relabel; spatial.get_tile_array / compute_tile_positions_per_frame via C12_Model; '
+            'geometry relative to the source: default tile size (tile_size or source Rows/Columns), plane_positions '
+            'guard, are_total_pixel_matrix_locations_preserved, shape guard, are_spatial_locations_preserved and the '
+            'TotalPixelMatrixRows/Columns written by _add_slide_coordinate_metadata (stored_geom / run_seg_geom); '
+            'create_segmentation_pyramid levels as a list of such constructions (array-per-level and '
+            'source-per-level modes; the downsample_factors mode is oracle-only)')
+STRATA = ['std', 'std_bad', 'img', 'img_missing', 'img_dup', 'seg', 'seg_full_omit', 'np1d',
+          'seg_geom', 'seg_geom_bad', 'seg_pyr']
 NOT_EXECUTED = ['float (probability) inputs of FRACTIONAL segmentations (value encoding is property C01)',
                 'compressed transfer syntaxes (frame codecs are property C07)',
                 'multiple optical paths / focal planes (property C12 covers the implied order)']
@@ -46,7 +59,11 @@ RULE = ('std: exhaustive small sizes x all argument values in [-n-2, n+3] U {Non
         'from tile-boundary +-1, first/last, None, negative and 0-based forms, plus a malformed stream (0 start, '
         'start > n, end > n+1, arg < -n, start > end, empty); img_missing: random tiles deleted from a '
         'TILED_SPARSE image; img_dup: one position duplicated; seg: all types x organisation x omit x '
-        'label/stack input x segment subsets, sparse/empty/full masks; np1d: model vs numpy, exhaustive per axis. '
+        'label/stack input x segment subsets, sparse/empty/full masks; np1d: model vs numpy, exhaustive per axis; '
+        'seg_geom: source matrix/tile size independent of the mask, caller-given spacing/orientation/origin each '
+        'absent, equal to or different from the source, mask shape = source / halved / arbitrary / larger, tile_size '
+        'None / = source tile / custom; seg_geom_bad: coinciding matrix with another shape, plane_positions with two '
+        'items or not at (1, 1); seg_pyr: pyramids of 2-3 levels in the three single/multi source modes. '
         'non-trivial = more than one tile and a non-whole region, or a refusal; distinct by case hash')
 EXHAUSTIVE = {'quick': False, 'thorough': False}
 FINDINGS = {}
@@ -204,6 +221,155 @@ def _labelmap(rng, R, C, nseg):
     return L
 
 
+# ---- geometry of the segmentation relative to its source ---------------------------
+_ORIS = [[0, -1, 0, -1, 0, 0], [1, 0, 0, 0, -1, 0], [0, 1, 0, 1, 0, 0], [-1, 0, 0, 0, 1, 0]]
+_SPACINGS = [[0.5, 0.5], [0.25, 0.25], [1.0, 1.0], [0.5, 1.0], [2.0, 0.5]]
+
+
+def _geom_flags(c):
+    """Geometric relation of the segmentation to the source image, from the
+    VALUES in the case (ground truth of the generator, independent of the code)."""
+    pp = c['pp']
+    origin_same = pp is None or [float(v) for v in pp['xyz']] == [float(c['src_origin'][0]),
+                                                                  float(c['src_origin'][1]), 0.0]
+    user_ori = c['ori'] is not None
+    ori_same = user_ori and [float(v) for v in c['ori']] == [float(v) for v in c['src_ori']]
+    user_meas = c['spacing'] is not None
+    meas_same = user_meas and [float(v) for v in c['spacing']] == [float(v) for v in c['src_spacing']]
+    pres = origin_same and (not user_ori or ori_same) and (not user_meas or meas_same)
+    pp_bad = pp is not None and (pp['n'] != 1 or list(pp['rc']) != [1, 1])
+    SR, SC = c['src'][0], c['src'][1]
+    return {'origin_same': origin_same, 'user_ori': user_ori, 'ori_same': ori_same, 'user_meas': user_meas,
+            'meas_same': meas_same, 'pres': pres, 'pp_bad': pp_bad,
+            'refused': pp_bad or (pres and (c['R'], c['C']) != (SR, SC))}
+
+
+def _eff_tile(c):
+    return tuple(c['tile']) if c['tile'] is not None else (c['src'][2], c['src'][3])
+
+
+def _mask_case(rng, R, C, allow_labelmap=True):
+    ty = rng.choice(['BINARY', 'BINARY', 'FRACTIONAL'] + (['LABELMAP'] if allow_labelmap else []))
+    nseg = rng.randint(1, 3)
+    L = _labelmap(rng, R, C, nseg)
+    inp, stack = 'label', None
+    if ty != 'LABELMAP' and rng.random() < 0.25:
+        inp = 'stack'
+        stack = [[[1 if (L[r][c] == k or (L[r][c] and rng.random() < 0.2)) else 0 for c in range(C)]
+                  for r in range(R)] for k in range(1, nseg + 1)]
+    sel = rng.sample(range(1, nseg + 1), rng.randint(1, nseg))
+    if rng.random() < 0.5:
+        sel = list(range(1, nseg + 1))
+    return {'ty': ty, 'nseg': nseg, 'inp': inp, 'L': L, 'stack': stack, 'sel': sel}
+
+
+def _gen_geom(rng, force_bad=False):
+    SR, SC, sth, stw = _sizes(rng, hi=12)
+    src_spacing = rng.choice(_SPACINGS[:3])
+    src_ori = rng.choice(_ORIS[:2])
+    src_origin = rng.choice([[0.0, 0.0], [10.0, 20.0]])
+
+    def pick(p_none, p_eq):
+        k = rng.random()
+        return 'none' if k < p_none else ('eq' if k < p_none + p_eq else 'diff')
+    ms, mo, mp = pick(0.45, 0.15), pick(0.7, 0.1), pick(0.65, 0.1)
+    if force_bad and rng.random() < 0.7:
+        ms, mo, mp = [m if m != 'diff' else 'eq' for m in (ms, mo, mp)]
+    spacing = None if ms == 'none' else (list(src_spacing) if ms == 'eq' else
+                                         rng.choice([v for v in _SPACINGS if v != src_spacing]))
+    ori = None if mo == 'none' else (list(src_ori) if mo == 'eq' else rng.choice([v for v in _ORIS if v != src_ori]))
+    pp = None
+    if mp != 'none':
+        xyz = [src_origin[0], src_origin[1], 0.0]
+        if mp == 'diff':
+            i = rng.randrange(3)
+            xyz[i] = xyz[i] + rng.choice([0.5, -1.0, 4.0])
+        pp = {'n': 1, 'rc': [1, 1], 'xyz': xyz}
+    pres = 'diff' not in (ms, mo, mp)
+    # shape of the mask
+    if pres and not force_bad:
+        R, C = SR, SC
+    else:
+        k = rng.random()
+        if k < 0.3:
+            R, C = -(-SR // 2), -(-SC // 2)                 # next pyramid level
+        elif k < 0.65:
+            R, C = _sizes(rng)[:2]                            # unrelated
+        elif k < 0.8 and not (pres and force_bad):
+            R, C = SR, SC                                     # same shape, other geometry
+        elif k < 0.9:
+            R, C = min(12, SR + rng.randint(1, 3)), min(12, SC + rng.randint(0, 3))   # larger
+        else:
+            R, C = (SR, max(1, SC - 1)) if rng.random() < 0.5 else (max(1, SR - 1), SC)
+        if pres and force_bad and (R, C) == (SR, SC):
+            R = SR + 1
+    if force_bad and not pres:
+        # malformed plane_positions
+        if pp is None:
+            pp = {'n': 1, 'rc': [1, 1], 'xyz': [src_origin[0] + 1.0, src_origin[1], 0.0]}
+        if rng.random() < 0.4:
+            pp['n'] = 2
+        else:
+            pp['rc'] = rng.choice([[2, 1], [1, 2], [3, 3]])
+    k = rng.random()
+    tile = None if k < 0.4 else ([sth, stw] if k < 0.65 else [rng.randint(1, 4), rng.randint(1, 4)])
+    full = rng.random() < 0.45
+    omit = (not full) and rng.random() < 0.7
+    c = {'R': R, 'C': C, 'src': [SR, SC, sth, stw], 'tile': tile, 'full': full, 'omit': omit,
+         'src_spacing': src_spacing, 'src_ori': src_ori, 'src_origin': src_origin,
+         'spacing': spacing, 'ori': ori, 'pp': pp, 'roundtrip': rng.random() < 0.15}
+    c.update(_mask_case(rng, R, C))
+    th, tw = _eff_tile(c)
+    c['regions'] = [[False, None, None, None, None]] + [_region(rng, R, C, th, tw) for _ in range(5)]
+    c['kind'] = 'seg_geom_bad' if _geom_flags(c)['refused'] else 'seg_geom'
+    return c
+
+
+def _gen_pyramid(rng):
+    mode = rng.choice(['arrays', 'arrays', 'sources', 'factors'])
+    sth, stw = rng.randint(1, 4), rng.randint(1, 4)
+    SR, SC = rng.randint(4, 12), rng.randint(4, 12)
+    nlev = rng.randint(2, 3)
+    shapes = [(SR, SC)]
+    factors = None
+    if mode == 'factors':
+        factors = sorted(rng.sample([1.5, 2, 2.5, 3, 4], nlev - 1))
+        shapes += [(int(SR / f), int(SC / f)) for f in factors]
+    else:
+        for _ in range(nlev - 1):
+            r, cc = shapes[-1]
+            if r < 2 or cc < 2:
+                break
+            k = rng.random()
+            shapes.append((-(-r // 2), -(-cc // 2)) if k < 0.5 and r > 2 and cc > 2
+                          else (rng.randint(1, r - 1), rng.randint(1, cc - 1)))
+    k = rng.random()
+    tile = None if k < 0.5 else ([sth, stw] if k < 0.7 else [rng.randint(1, 4), rng.randint(1, 4)])
+    full = rng.random() < 0.45
+    omit = (not full) and rng.random() < 0.7
+    m = _mask_case(rng, SR, SC, allow_labelmap=False)
+    levels = [{'R': SR, 'C': SC, 'L': m['L'], 'stack': m['stack']}]
+    if mode != 'factors':
+        for (r, cc) in shapes[1:]:
+            L = _labelmap(rng, r, cc, m['nseg'])
+            stack = None
+            if m['inp'] == 'stack':
+                stack = [[[1 if L[a][b] == k2 else 0 for b in range(cc)] for a in range(r)]
+                         for k2 in range(1, m['nseg'] + 1)]
+            levels.append({'R': r, 'C': cc, 'L': L, 'stack': stack})
+    c = {'kind': 'seg_pyr', 'mode': mode, 'src': [SR, SC, sth, stw], 'tile': tile, 'full': full, 'omit': omit,
+         'ty': m['ty'], 'nseg': m['nseg'], 'inp': m['inp'], 'sel': m['sel'], 'levels': levels,
+         'factors': factors, 'shapes': [list(x) for x in shapes],
+         # sources mode: every level has its own source with its own tile size
+         'src_tiles': [[sth, stw]] + [[rng.randint(1, 4), rng.randint(1, 4)] for _ in shapes[1:]]}
+    regs = []
+    for li, (r, cc) in enumerate(shapes):
+        th, tw = tuple(tile) if tile is not None else tuple(c['src_tiles'][li] if mode == 'sources' else [sth, stw])
+        regs.append([[False, None, None, None, None]] + [_region(rng, r, cc, th, tw, pbad=0.05) for _ in range(3)])
+    c['regions'] = regs
+    return c
+
+
 def _std_values(n):
     return [None] + list(range(-n - 2, n + 4))
 
@@ -303,6 +469,13 @@ def gen_cases(rng, tier):
              'omit': True, 'inp': 'label', 'L': L, 'stack': None, 'sel': list(range(1, nseg + 1)),
              'src_tile': [2, 2], 'regions': [[False, None, None, None, None], _region(rng, R, C, th, tw)]}
         cases.append(c)
+    # ---- own geometry relative to the source image / pyramids -----------------------------
+    for _ in range(150 * nrand):
+        cases.append(_gen_geom(rng))
+    for _ in range(30 * nrand):
+        cases.append(_gen_geom(rng, force_bad=True))
+    for _ in range(40 * nrand):
+        cases.append(_gen_pyramid(rng))
     # ---- model vs numpy, exhaustive per axis ---------------------------------------------
     top_n, top_t = {'quick': (5, 3), 'thorough': (7, 4), 'search': (6, 4)}[tier]
     for n in range(1, top_n + 1):
@@ -365,6 +538,108 @@ def _np1d_matrix(c):
     return R, C, th, tw, M
 
 
+def _mask_array(m, R, C):
+    import numpy as np
+    if m['inp'] == 'label':
+        return np.array(m['L'], np.uint8).reshape(1, R, C)
+    return np.stack([np.array(p, np.uint8).reshape(R, C) for p in m['stack']], axis=-1)[None]
+
+
+def _observe_seg(seg, c, regions, roundtrip=False, geom=False):
+    import numpy as np
+    if roundtrip:
+        import highdicom as hd
+        import synth
+        seg = synth.write_read(seg, hd.seg.segread)
+    outs = [int(seg.NumberOfFrames)]
+    if geom:
+        outs += [int(seg.Rows), int(seg.Columns), int(seg.TotalPixelMatrixRows), int(seg.TotalPixelMatrixColumns)]
+    for rg in regions:
+        def f():
+            if c['ty'] == 'LABELMAP':
+                return seg.get_total_pixel_matrix(segment_numbers=c['sel'], combine_segments=True,
+                                                  **_kw(rg)).astype(np.int64).tolist()
+            a = seg.get_total_pixel_matrix(segment_numbers=c['sel'], combine_segments=False,
+                                           rescale_fractional=False, **_kw(rg))
+            return a.astype(np.int64).transpose(2, 0, 1).tolist()
+        outs.append(catch(f))
+    return outs
+
+
+def _run_geom(c):
+    import numpy as np
+    import highdicom as hd
+    import synth
+    SR, SC, sth, stw = c['src']
+    src = synth.sm_tiled(SR, SC, sth, stw, origin=c['src_origin'], spacing=c['src_spacing'],
+                         orientation=c['src_ori'])
+    arr = _mask_array(c, c['R'], c['C'])
+    before = arr.copy()
+    kw = {}
+    if c['spacing'] is not None:
+        kw['pixel_measures'] = hd.PixelMeasuresSequence(pixel_spacing=tuple(c['spacing']), slice_thickness=1.0)
+    if c['ori'] is not None:
+        kw['plane_orientation'] = hd.PlaneOrientationSequence('SLIDE', tuple(c['ori']))
+    if c['pp'] is not None:
+        rp, cp = c['pp']['rc']
+        kw['plane_positions'] = [hd.PlanePositionSequence('SLIDE', image_position=tuple(c['pp']['xyz']),
+                                                          pixel_matrix_position=(cp, rp))
+                                 for _ in range(c['pp']['n'])]
+
+    def build():
+        return synth.make_seg([src], arr, c['ty'], list(range(1, c['nseg'] + 1)), tile_pixel_array=True,
+                              tile_size=tuple(c['tile']) if c['tile'] is not None else None,
+                              dimension_organization_type='TILED_FULL' if c['full'] else 'TILED_SPARSE',
+                              omit_empty_frames=c['omit'], **kw)
+    seg = catch(build)
+    if isinstance(seg, Err):
+        return seg
+    assert np.array_equal(arr, before)
+    return _observe_seg(seg, c, c['regions'], c.get('roundtrip'), geom=True)
+
+
+def _run_pyramid(c):
+    import highdicom as hd
+    import synth
+    SR, SC, sth, stw = c['src']
+    mode = c['mode']
+    if mode == 'sources':
+        series, pyr = hd.UID(), hd.UID()
+        sources = []
+        for (r, cc), (a, b) in zip(c['shapes'], c['src_tiles']):
+            ds = synth.sm_tiled(r, cc, a, b, spacing=(0.5 * SR / r, 0.5 * SC / cc))
+            ds.SeriesInstanceUID = series
+            ds.PyramidUID = pyr
+            sources.append(ds)
+    else:
+        sources = [synth.sm_tiled(SR, SC, sth, stw)]
+    arrays = [_mask_array(dict(c, **lv), lv['R'], lv['C']) for lv in c['levels']]
+    kw = {}
+    if c['tile'] is not None:
+        kw['tile_size'] = tuple(c['tile'])
+    if mode == 'factors':
+        kw['downsample_factors'] = list(c['factors'])
+
+    def build():
+        return hd.seg.create_segmentation_pyramid(
+            source_images=sources, pixel_arrays=arrays, segmentation_type=c['ty'],
+            segment_descriptions=[synth.seg_description(n) for n in range(1, c['nseg'] + 1)],
+            series_instance_uid=hd.UID(), series_number=1, manufacturer='m', manufacturer_model_name='mm',
+            software_versions='1', device_serial_number='sn',
+            dimension_organization_type='TILED_FULL' if c['full'] else 'TILED_SPARSE',
+            omit_empty_frames=c['omit'], **kw)
+    segs = catch(build)
+    if isinstance(segs, Err):
+        return segs
+    if mode == 'factors':
+        # level 0 in full; of the library-resampled levels only sizes and the whole matrix
+        outs = [_observe_seg(segs[0], c, c['regions'][0], geom=True)]
+        for sg in segs[1:]:
+            outs.append(_observe_seg(sg, c, [[False, None, None, None, None]], geom=True))
+        return outs
+    return [_observe_seg(sg, c, rgs, geom=True) for sg, rgs in zip(segs, c['regions'])]
+
+
 def run_impl(c):
     import numpy as np
     _quiet()
@@ -419,6 +694,10 @@ def run_impl(c):
                 return a.astype(np.int64).transpose(2, 0, 1).tolist()
             outs.append(catch(f))
         return outs
+    if k in ('seg_geom', 'seg_geom_bad'):
+        return _run_geom(c)
+    if k == 'seg_pyr':
+        return _run_pyramid(c)
     if k == 'np1d':
         # MODEL vs numpy: no highdicom involved
         R, C, th, tw, M = _np1d_matrix(c)
@@ -475,6 +754,32 @@ def _img_tiles(c):
     return planes
 
 
+def _planes_term(m):
+    """(planes, segs_model) of a mask description"""
+    segs = list(range(1, m['nseg'] + 1))
+    if m['ty'] == 'LABELMAP':
+        return f"[(0, {zll(m['L'])})]", [0]
+    if m['inp'] == 'label':
+        return f"(planes_of_labelmap {zll(m['L'])} {zl(segs)})", segs
+    return '[' + '; '.join(f'({i + 1}, {zll(p)})' for i, p in enumerate(m['stack'])) + ']', segs
+
+
+def _rgs_term(regions):
+    return '[' + '; '.join(
+        f'({_b(rg[0])}, ({optz(rg[1])}, {optz(rg[2])}, {optz(rg[3])}, {optz(rg[4])}))' for rg in regions) + ']'
+
+
+def _geom_term(m, R, C, src, tile, pp, fl, full, omit, regions):
+    ty = {'BINARY': 'Binary', 'FRACTIONAL': 'Fractional', 'LABELMAP': 'Labelmap'}[m['ty']]
+    planes, segs_model = _planes_term(m)
+    t = 'None' if tile is None else f'(Some ({tile[0]}, {tile[1]}))'
+    ppt = 'None' if pp is None else f"(Some ({pp['n']}, {pp['rc'][0]}, {pp['rc'][1]}))"
+    g = (f"(mkGeom {src[0]} {src[1]} {src[2]} {src[3]} {t} {ppt} {_b(fl['origin_same'])} {_b(fl['user_ori'])} "
+         f"{_b(fl['ori_same'])} {_b(fl['user_meas'])} {_b(fl['meas_same'])})")
+    return (f"(run_seg_geom {ty} 255 {_b(full)} {_b(omit)} {planes} {zl(segs_model)} {zl(m['sel'])} "
+            f"{R} {C} {g} {_rgs_term(regions)})")
+
+
 def coq_term(c):
     k = c['kind']
     if k in ('std', 'std_bad'):
@@ -508,6 +813,27 @@ def coq_term(c):
             f'({_b(rg[0])}, ({optz(rg[1])}, {optz(rg[2])}, {optz(rg[3])}, {optz(rg[4])}))' for rg in c['regions']) + ']'
         return (f"(run_seg {ty} 255 {_b(c['full'])} {_b(c['omit'])} {planes} {zl(segs_model)} {zl(c['sel'])} "
                 f"{c['R']} {c['C']} {c['th']} {c['tw']} {rgs})")
+    if k in ('seg_geom', 'seg_geom_bad'):
+        return _geom_term(c, c['R'], c['C'], c['src'], c['tile'], c['pp'], _geom_flags(c), c['full'], c['omit'],
+                          c['regions'])
+    if k == 'seg_pyr':
+        if c['mode'] == 'factors':
+            return None          # library-resampled levels: outside the model (oracle-only)
+        terms = []
+        for li, lv in enumerate(c['levels']):
+            m = dict(c, **lv)
+            if c['mode'] == 'arrays':
+                # create_segmentation_pyramid passes pixel_measures scaled by the shape ratio
+                fl = {'origin_same': True, 'user_ori': False, 'ori_same': False, 'user_meas': True,
+                      'meas_same': (lv['R'], lv['C']) == (c['src'][0], c['src'][1])}
+                src = c['src']
+            else:
+                fl = {'origin_same': True, 'user_ori': False, 'ori_same': False, 'user_meas': False,
+                      'meas_same': False}
+                src = [lv['R'], lv['C']] + list(c['src_tiles'][li])
+            terms.append(_geom_term(m, lv['R'], lv['C'], src, c['tile'], None, fl, c['full'], c['omit'],
+                                    c['regions'][li]))
+        return f"(VL [{'; '.join(terms)}])"
     if k == 'np1d':
         R, C, th, tw, M = _np1d_matrix(c)
         nr, nc = -(-R // th), -(-C // tw)
@@ -536,6 +862,66 @@ def _expect_region(c, rg, planes, missing=None):
     if missing is not None and missing[r0:r1, c0:c1].any():
         return ('missing',)
     return ('arr', [p[r0:r1, c0:c1].tolist() for p in planes])
+
+
+def _seg_oracle(c, R, C, th, tw, regions, out, geom):
+    """c: mask description (ty, nseg, inp, L, stack, sel, full, omit); the mask is R x C and must
+    have been cut into th x tw tiles.  out = [frames, (Rows, Columns, TPM rows, TPM columns,)
+    region...]"""
+    import numpy as np
+    L = np.array(c['L'], np.int64).reshape(R, C)
+    nseg = c['nseg']
+    if c['inp'] == 'label':
+        masks = {s: (L == s).astype(np.int64) for s in range(1, nseg + 1)}
+    else:
+        masks = {s + 1: np.array(p, np.int64).reshape(R, C) for s, p in enumerate(c['stack'])}
+    anym = np.zeros((R, C), bool)
+    for m in masks.values():
+        anym |= m > 0
+    all_empty = not anym.any()
+    if c['full'] and c['omit'] and not all_empty:
+        return None if (isinstance(out, Err) and out.kind == 'ValueError') else \
+            f'TILED_FULL with omit_empty_frames and a non-empty mask must be refused, got {str(out)[:80]}'
+    if isinstance(out, Err):
+        return f'valid construction refused: {out}'
+    # number of stored frames, by direct counting
+    tiles = [(a, b) for a in range(0, R, th) for b in range(0, C, tw)]
+    omit = c['omit'] and not all_empty
+
+    def ne(m, a, b):
+        return bool(m[a:a + th, b:b + tw].any())
+    if c['ty'] == 'LABELMAP':
+        want_n = sum(1 for a, b in tiles if (not omit) or ne(anym, a, b))
+    else:
+        want_n = sum(1 for s in masks for a, b in tiles if (not omit) or ne(masks[s], a, b))
+    first = 1
+    if geom:
+        first = 5
+        if list(out[1:3]) != [th, tw]:
+            return f'frames are {out[1]}x{out[2]}, tile size {th}x{tw} expected'
+        if list(out[3:5]) != [R, C]:
+            return (f'declares TotalPixelMatrixRows/Columns {out[3]}x{out[4]} for a mask of shape {R}x{C} '
+                    f'passed as the whole matrix')
+    if out[0] != want_n:
+        return f'{out[0]} frames stored, expected {want_n}'
+    if c['ty'] == 'LABELMAP':
+        planes = [np.where(np.isin(L, c['sel']), L, 0)]
+    else:
+        scale = 255 if c['ty'] == 'FRACTIONAL' else 1
+        planes = [masks[s] * scale for s in c['sel']]
+    dims = {'R': R, 'C': C}
+    for rg, o in zip(regions, out[first:]):
+        exp = _expect_region(dims, rg, planes)
+        if exp[0] == 'err':
+            if not isinstance(o, Err):
+                return f'region {rg} outside the conventions accepted: {str(o)[:120]}'
+        else:
+            if isinstance(o, Err):
+                return f'valid region {rg} refused: {o}'
+            want = exp[1][0] if c['ty'] == 'LABELMAP' else exp[1]
+            if o != want:
+                return f'region {rg}: got {str(o)[:200]} expected {str(want)[:200]}'
+    return None
 
 
 def oracle(c, out):
@@ -596,50 +982,56 @@ def oracle(c, out):
                     return f'region {rg}: got {str(o)[:200]} expected TPM slice {str(exp[1])[:200]}'
         return None
     if k in ('seg', 'seg_full_omit'):
-        R, C, th, tw = c['R'], c['C'], c['th'], c['tw']
-        L = np.array(c['L'], np.int64).reshape(R, C)
-        nseg = c['nseg']
-        if c['inp'] == 'label':
-            masks = {s: (L == s).astype(np.int64) for s in range(1, nseg + 1)}
-        else:
-            masks = {s + 1: np.array(p, np.int64).reshape(R, C) for s, p in enumerate(c['stack'])}
-        anym = np.zeros((R, C), bool)
-        for m in masks.values():
-            anym |= m > 0
-        all_empty = not anym.any()
-        if c['full'] and c['omit'] and not all_empty:
+        return _seg_oracle(c, c['R'], c['C'], c['th'], c['tw'], c['regions'], out, geom=False)
+    if k in ('seg_geom', 'seg_geom_bad'):
+        fl = _geom_flags(c)
+        if fl['refused']:
+            why = ('plane_positions must be one item at pixel matrix position (1, 1)' if fl['pp_bad'] else
+                   f"total pixel matrix coincides with the source's {c['src'][:2]} but the mask is {c['R']}x{c['C']}")
             return None if (isinstance(out, Err) and out.kind == 'ValueError') else \
-                f'TILED_FULL with omit_empty_frames and a non-empty mask must be refused, got {str(out)[:80]}'
+                f'{why}: must be refused with ValueError, got {str(out)[:80]}'
+        th, tw = _eff_tile(c)
+        return _seg_oracle(c, c['R'], c['C'], th, tw, c['regions'], out, geom=True)
+    if k == 'seg_pyr':
         if isinstance(out, Err):
-            return f'valid construction refused: {out}'
-        # number of stored frames, by direct counting
-        tiles = [(a, b) for a in range(0, R, th) for b in range(0, C, tw)]
-        omit = c['omit'] and not all_empty
-
-        def ne(m, a, b):
-            return bool(m[a:a + th, b:b + tw].any())
-        if c['ty'] == 'LABELMAP':
-            want_n = sum(1 for a, b in tiles if (not omit) or ne(anym, a, b))
-        else:
-            want_n = sum(1 for s in masks for a, b in tiles if (not omit) or ne(masks[s], a, b))
-        if out[0] != want_n:
-            return f'{out[0]} frames stored, expected {want_n}'
-        if c['ty'] == 'LABELMAP':
-            planes = [np.where(np.isin(L, c['sel']), L, 0)]
-        else:
-            scale = 255 if c['ty'] == 'FRACTIONAL' else 1
-            planes = [masks[s] * scale for s in c['sel']]
-        for rg, o in zip(c['regions'], out[1:]):
-            exp = _expect_region(c, rg, planes)
-            if exp[0] == 'err':
-                if not isinstance(o, Err):
-                    return f'region {rg} outside the conventions accepted: {str(o)[:120]}'
+            return f'valid pyramid refused: {out}'
+        if len(out) != len(c['shapes']):
+            return f"{len(out)} levels created, {len(c['shapes'])} expected"
+        for li, (r, cc) in enumerate(c['shapes']):
+            if c['tile'] is not None:
+                th, tw = c['tile']
             else:
+                th, tw = c['src_tiles'][li] if c['mode'] == 'sources' else c['src'][2:]
+            if li < len(c['levels']):
+                lv = c['levels'][li]
+                msg = _seg_oracle(dict(c, **lv), r, cc, th, tw, c['regions'][li], out[li], geom=True)
+            else:
+                # level resampled by the library: sizes, and constant masks stay constant
+                o = out[li]
+                msg = None
                 if isinstance(o, Err):
-                    return f'valid region {rg} refused: {o}'
-                want = exp[1][0] if c['ty'] == 'LABELMAP' else exp[1]
-                if o != want:
-                    return f'region {rg}: got {str(o)[:200]} expected {str(want)[:200]}'
+                    msg = f'refused: {o}'
+                elif o[1:5] != [th, tw, r, cc]:
+                    msg = (f'declares Rows/Columns/TotalPixelMatrixRows/Columns {o[1:5]}, expected '
+                           f'{[th, tw, r, cc]} (source matrix / factor {c["factors"][li - 1]})')
+                else:
+                    a = o[5]
+                    if isinstance(a, Err):
+                        msg = f'whole matrix refused: {a}'
+                    else:
+                        A = np.array(a)
+                        if A.shape[-2:] != (r, cc):
+                            msg = f'whole matrix has shape {A.shape[-2:]}, expected {(r, cc)}'
+                        else:
+                            L0 = np.array(c['levels'][0]['L'])
+                            if c['inp'] == 'label' and (L0 == L0.flat[0]).all():
+                                k0 = int(L0.flat[0])
+                                scale = 255 if c['ty'] == 'FRACTIONAL' else 1
+                                want = [scale if s_ == k0 else 0 for s_ in c['sel']]
+                                if any((A[i] != w).any() for i, w in enumerate(want)):
+                                    msg = f'constant mask {k0} resampled to a non-constant matrix'
+            if msg is not None:
+                return f'pyramid level {li} ({r}x{cc}): {msg}'
         return None
     if k == 'np1d':
         return None     # model-vs-numpy kind: the comparison itself is the check
@@ -648,8 +1040,14 @@ def oracle(c, out):
 
 def nontrivial(c, out):
     k = c['kind']
-    if k in ('std', 'std_bad', 'img_dup', 'seg_full_omit'):
+    if k in ('std', 'std_bad', 'img_dup', 'seg_full_omit', 'seg_geom_bad'):
         return True
+    if k == 'seg_geom':
+        th, tw = _eff_tile(c)
+        nt = (-(-c['R'] // th)) * (-(-c['C'] // tw))
+        return nt > 1 and any(r[1:] != [None, None, None, None] for r in c['regions'])
+    if k == 'seg_pyr':
+        return len(c['shapes']) > 1
     if k == 'np1d':
         return c['n'] > c['t']
     nt = (-(-c['R'] // c['th'])) * (-(-c['C'] // c['tw']))
@@ -658,6 +1056,8 @@ def nontrivial(c, out):
 
 def shrink(c):
     k = c['kind']
+    if k == 'seg_pyr':
+        return
     if 'regions' in c and len(c['regions']) > 1:
         for i in range(len(c['regions'])):
             yield dict(c, regions=[c['regions'][i]])
@@ -668,7 +1068,15 @@ def shrink(c):
                     r2 = list(rg)
                     r2[j] = None
                     yield dict(c, regions=c['regions'][:i] + [r2] + c['regions'][i + 1:])
-    if k == 'seg':
+    if k == 'seg_geom':
+        if c['roundtrip']:
+            yield dict(c, roundtrip=False)
+        for key in ('spacing', 'ori', 'pp'):
+            if c[key] is not None:
+                c2 = dict(c, **{key: None})
+                if _geom_flags(c2)['refused'] == _geom_flags(c)['refused']:
+                    yield c2
+    if k in ('seg', 'seg_geom'):
         if c['inp'] == 'label':
             L = c['L']
             for r in range(len(L)):
@@ -677,7 +1085,7 @@ def shrink(c):
                         L2 = [list(x) for x in L]
                         L2[r][cc] = 0
                         yield dict(c, L=L2)
-        if c['nseg'] > 1 and c['inp'] == 'label' and max(max(r) for r in c['L']) < c['nseg']:
+        if k == 'seg' and c['nseg'] > 1 and c['inp'] == 'label' and max(max(r) for r in c['L']) < c['nseg']:
             yield dict(c, nseg=c['nseg'] - 1, sel=[s for s in c['sel'] if s < c['nseg']] or [1])
     if k in ('img', 'img_missing') and c['samples'] == 3:
         yield dict(c, samples=1, px=[[[p[0]] for p in row] for row in c['px']])
